@@ -1154,6 +1154,11 @@ func (P *Program) isAnchor(fn *ssa.Function) bool {
 // helperReturns: the values result #idx of the called helper may be (nil if the callee is not a transparent helper).
 func (P *Program) helperReturns(call *ssa.Call, idx int) []ssa.Value {
 	callee := call.Call.StaticCallee()
+	if callee == nil && !call.Call.IsInvoke() {
+		// a call of a function-typed parameter / local variable that stands for one function literal (in the
+		// current calling context)
+		callee = P.Callee(&call.Call)
+	}
 	if callee == nil || !P.IsProductFunc(callee) || len(callee.Blocks) == 0 || P.isAnchor(callee) {
 		return nil
 	}
